@@ -23,6 +23,27 @@ def cases(draw, max_steps=14):
         r["mult"] = 1
     scn["forcing"]["vel"]["kind"] = draw(st.sampled_from(["shear", "shear", "noise"]))
     scn["grid"]["h"] = draw(st.sampled_from(["noise", "slope"]))
+    if draw(st.integers(0, 2)) == 0:
+        # coastal flavour: everybody is released next to land in a flow that pushes towards it, some particles
+        # are switched off or die early and stay in the state (dense layout, or output period > 1)
+        scn["grid"]["mask"] = draw(st.sampled_from(["shore", "shore", "islands"]))
+        rows = scn["release"]["rows"]
+        for _ in range(draw(st.integers(2, 6))):  # a crowd: more particles in the first steps
+            rows.append(dict(step=draw(st.integers(0, min(2, scn["time"]["nsteps"] - 1))), cell=draw(st.integers(0, 10**6)),
+                             fx=draw(st.floats(-0.45, 0.45)), fy=draw(st.floats(-0.45, 0.45)),
+                             zf=draw(st.floats(0.0, 1.0)), mult=1, tag=len(rows)))
+        rows.sort(key=lambda r: (r["step"], r["tag"]))
+        scn["release"]["near_land"] = True
+        # velocity through a land face is zero, so a particle only lands when it moves more than its distance
+        # to the face in one step: the flow towards the coast is faster than one cell per step
+        scn["forcing"]["vel"].update(u=draw(st.sampled_from([-2.4, -1.9, -1.9, 1.9])),
+                                     v=draw(st.sampled_from([0.0, 0.8, -1.9])), amp=0.2)
+        nst = scn["time"]["nsteps"]
+        tags = [r["tag"] for r in scn["release"]["rows"]]
+        for _ in range(draw(st.integers(1, 3))):
+            scn["ibm"]["deactivate"].append([draw(st.integers(0, max(0, nst - 1))), draw(st.sampled_from(tags))])
+        scn["output"]["period"] = draw(st.sampled_from([1, 2, 3]))
+        scn["coastal"] = True
     ntag = len(scn["release"]["rows"])
     variant = draw(st.sampled_from(["drop", "add", "permute", "kill_others", "shift", "repeat", "kill_others", "drop"]))
     v = dict(kind=variant)
@@ -104,6 +125,8 @@ def oracle(scn) -> core.CaseResult:
     v = scn["variant"]
     res.cls(v["kind"])
     res.cls(scn["output"]["layout"])
+    if scn.get("coastal"):
+        res.cls("coastal")
     s2, shift, compare = make_variant(scn)
     with e2e.workdir() as d1, e2e.workdir() as d2:
         r1, m1 = sim.run(d1, scn, record_output=False)
